@@ -3,7 +3,7 @@
 
   `Ex.pW` — the witness of finding F6: A = [1 1 0; 0 0 1; 1 1 1] (rank 2, kernel spanned by
   (1,−1,0)), b = (1,2,3), unit weights, regularisation subset S = {3}: S does not resolve the
-  defect (the kernel vector vanishes on S), yet the model of the code before f703dbb answers.
+  defect (the kernel vector vanishes on S), the code before f703dbb answered it (finding F6); the code since refuses it.
 -/
 import Gama.Lemmas.Ls.GsoCof
 import Mathlib.Tactic.FinCases
@@ -45,8 +45,5 @@ theorem pW_not_resolves : ¬ Resolves (pW (K := K)).A (pW (K := K)).S := by
   have := h (gW : Fin 3 → K) (by funext i; exact pW_ker i) pW_vanish
   have h0 : (gW (0 : Fin 3) : K) = 0 := by rw [this]; rfl
   simp [gW] at h0
-
-theorem pW_answers : ∃ a, gsoSolveBefore (pW (K := K)) = .ok a := by
-  simp [gsoSolveBefore, gsoSolveWith, regInRange, pW]
 
 end Gama.Ls.Gso.Ex
